@@ -171,6 +171,9 @@ let comp_api : Registry.comp = fun _params ->
        (* the administrator edits config.json by hand; the file's stamp changes, the server re-reads it *)
        let u = { Api.u_password = parse_pw pw; u_perms = parse_perms perms } in
        env := { !env with Api.e_conf = List.map (fun (k, v) -> if k = cs n then (k, u) else (k, v)) !env.Api.e_conf }; "-"
+    | ["confclear"] ->
+       (* config.json is removed: no server administrator, groups not writable *)
+       env := { !env with Api.e_conf = []; Api.e_writable = false }; "-"
     | ["group"; n; c; a; r; u] ->
        let d = { Api.d_pub = { Api.p_comment = cs (dash c); p_auto_subgroups = bool01 a;
                                p_allow_recording = bool01 r; p_unrestricted_tokens = bool01 u };
